@@ -125,6 +125,17 @@ namespace plan
       g_rel(r, op, K);
       g_rel(r, op, K);
     }
+    else if (name == "tp")
+      op.a = {0};
+    else if (name == "tprel")
+      op.a = {static_cast<long>(r.below(5)), static_cast<long>(r.below(5)), static_cast<long>(r.below(5)), static_cast<long>(r.below(36)), static_cast<long>(r.below(3)), static_cast<long>(r.below(8))};
+    else if (name == "tpdisj")
+    {
+      op.a = {0, static_cast<long>(r.below(5)), static_cast<long>(r.below(5)), static_cast<long>(r.below(36)), static_cast<long>(r.below(36)), static_cast<long>(r.below(3)), static_cast<long>(r.chance(2, 3) ? 1 : 0), static_cast<long>(r.below(5)), static_cast<long>(r.below(5)),
+              static_cast<long>(r.below(3)), static_cast<long>(r.below(3))};
+      for (int i = 0; i < 18; ++i) // 2 branches x 3 relations x (kind and bound, first point, second point)
+        op.a.push_back(static_cast<long>(i % 3 == 0 ? r.below(36) : r.below(5)));
+    }
     else if (name == "epin")
       op.a = {static_cast<long>(r.below(3)), static_cast<long>(r.below(4)), static_cast<long>(r.below(42)), static_cast<long>(r.below(4))};
     else if (name == "ublock")
@@ -273,6 +284,25 @@ namespace plan
       ops.push_back(g_op(g, "real"));
     for (int i = 0, n = static_cast<int>(sw.range(0, 3)); i < n; ++i)
       ops.push_back(g_op(g, "bool"));
+    if (objects && Rng(seed).derive("enum-const").chance(1, prop == "C17" ? 6 : 14))
+    { // enums with a single value (a variable of such an enum is that constant itself) included in unions, variables of every
+      // enum, and several (dis)equalities between them: variable against constant, constant against variable, constant against constant
+      for (int i = 0; i < 3; ++i)
+      {
+        Op e = g_op(g, "enumt");
+        e.a = {static_cast<long>(i == 2 ? 1 + g.below(2) : (g.chance(2, 3) ? 0 : 1)), static_cast<long>(i == 0 ? 0 : (g.chance(3, 4) ? i + 1 : 0))};
+        ops.push_back(e);
+      }
+      for (int i = 0, k = static_cast<int>(g.range(3, 5)); i < k; ++i)
+      {
+        Op v = g_op(g, "enumv");
+        if (i < 3)
+          v.a[0] = i;
+        ops.push_back(v);
+      }
+      for (int i = 0, k = static_cast<int>(g.range(2, 5)); i < k; ++i)
+        ops.push_back(g_op(g, "eeq"));
+    }
     bool diamond = false;
     if (objects && prop == "C17" && sw.chance(1, 6))
     { // multiple inheritance: R; A : R; B : A; C : A [, E]; D : B, C - all without fields; instances of several of them; variables over R, A, E
@@ -411,6 +441,7 @@ namespace plan
       ops.push_back(g_op(g, "ublock")); // a block solvable by construction, through unification only (P7(b))
     if (prop == "C19" && Rng(seed).derive("epin").chance(1, 6))
       ops.push_back(g_op(g, "epin")); // an early-ending atom under a disjunction whose other branch needs it to end much later (indirectly)
+    bool tp_heavy = false;
     W w;
     const bool timeline_focus = prop == "C19" || prop == "C04" || prop == "C05" || prop == "C06";
     w.add("real", 3), w.add("bool", 2), w.add("rel", timeline_focus ? 4 : 14);
@@ -430,8 +461,22 @@ namespace plan
       w.add("disj", 3);
     if (obj_params)
       w.add("goal", 8), w.add("fact", 8), w.add("r_rel", 3);
+    if ((prop == "C01" || prop == "C02") && Rng(seed).derive("tps").chance(1, 5))
+    { // time points: relations among `tp` variables go to the real difference-logic theory (statement-level disjunctions decide them)
+      for (int i = 0, k = static_cast<int>(g.range(2, 4)); i < k; ++i)
+        ops.push_back(g_op(g, "tp"));
+      w.add("tprel", 10), w.add("tpdisj", 8);
+      tp_heavy = g.chance(1, 2);
+    }
     w.add("cut", sw.chance(1, 2) ? 3 : 0);
     int n = static_cast<int>(sw.range(4, causal || sv || rr ? 14 : 18));
+    if (tp_heavy)
+    { // a scheduling problem in difference logic: many two-way disjunctions over few time points (every disjunction is a decision
+      // level: bounds tightened along paths and directly, at several levels, undone by backjumps), little else
+      n = static_cast<int>(g.range(0, 3));
+      for (int i = 0, k = static_cast<int>(g.range(5, 11)); i < k; ++i)
+        ops.push_back(g_op(g, g.chance(1, 4) ? "tprel" : "tpdisj"));
+    }
     if (class_preds)
     {
       for (int i = 0; i < 3; ++i)
